@@ -4,8 +4,9 @@ import treelib as T
 
 PID = "C09"
 LEVEL = "proof"
-COQ_TARGETS = ["Props/C09.vo"]
-THEOREMS = ["C09_new_spec", "C09_step_refines", "C09_history_refines", "C09_history_eq_fresh",
+COQ_TARGETS = ["Props/C09.vo", "Props/C09_fp.vo"]
+PROPS_FILES = ["C09", "C09_fp"]
+THEOREMS = ["C09_fingerprints", "C09_new_spec", "C09_step_refines", "C09_history_refines", "C09_history_eq_fresh",
             "C09_observers", "C09_error_atomic", "C09_rep_unique", "C09_nonvacuous"]
 TRUSTED_BASE = [
     "Coq 8.16.1 kernel + vm_compute (no native_compute); all C09 theorems print 'Closed under the global context'",
